@@ -113,7 +113,14 @@ func genCase(t *rapid.T, thorough bool) Case {
 		c.Reroot = 1 + rapid.IntRange(0, 1000).Draw(t, "rerootat")
 	}
 	if rapid.IntRange(0, 4).Draw(t, "hashistory") == 2 {
-		c.History = ops.GenHistory(t, 4)
+		c.History = ops.GenHistoryOf(t, ops.WithTipEdits, 4)
+		for _, op := range c.History {
+			// a tip renamed by the history ("sn1x" is the first fresh name) may be in the list
+			if op.Kind == "setname_fresh" && rapid.Bool().Draw(t, "freshinlist") {
+				c.Names = append(c.Names, "sn1x")
+				break
+			}
+		}
 	}
 	if rapid.IntRange(0, 3).Draw(t, "preuse") == 1 {
 		c.PreUse = rapid.IntRange(1, 2).Draw(t, "preusesel")
@@ -126,8 +133,18 @@ func check(c Case) error {
 	if err != nil {
 		return fmt.Errorf("parser rejects the start tree: %v", err)
 	}
+	stale := false
 	if len(c.History) > 0 {
-		// 1-4 name-preserving edits of the tree object in memory; the oracle works on the model read back
+		// 1-4 edits of the tree object in memory; the oracle works on the model read back. An indexed
+		// tree is indexed before the edits; after an even number of edits it is not indexed again,
+		// so that the indexes are what the edits left (names exchanged or a tip grafted without a refresh
+		// of the tip index: the tips to remove are those of the tree, not those of a stale index)
+		if c.Indexed {
+			if err := t.ReinitIndexes(); err != nil {
+				return err
+			}
+			stale = len(c.History)%2 == 0
+		}
 		if t2, m2, ok, herr := ops.Replay(t, c.History); herr != nil {
 			return herr
 		} else if ok {
@@ -144,16 +161,54 @@ func check(c Case) error {
 		}
 		c.Tree = rm
 	}
-	if c.Indexed {
+	if c.Indexed && !stale {
 		if err := t.ReinitIndexes(); err != nil {
 			return err
 		}
+	}
+	if stale {
+		// the indexes are in whatever state the edits left them (a copy has none): the result is
+		// judged like that of a tree that was not indexed
+		c.Indexed = false
 	}
 	given := map[string]bool{}
 	for _, n := range c.Names {
 		given[n] = true
 	}
+	if given["sn1x"] && !c.Revert {
+		// the tip renamed by the history was added to a list drawn so that three tips remain: drop it
+		// again if fewer would remain with it
+		left := 0
+		for _, n := range c.Tree.Tips() {
+			if !given[n] {
+				left++
+			}
+		}
+		if left < 3 {
+			delete(given, "sn1x")
+			var l []string
+			for _, n := range c.Names {
+				if n != "sn1x" {
+					l = append(l, n)
+				}
+			}
+			c.Names = l
+		}
+	}
 	keep := func(n string) bool { return given[n] == c.Revert }
+	if len(c.History) > 0 {
+		// a history that renamed a listed tip can leave fewer than three tips to keep: outside the
+		// property's quantifier ("subsets ... that leave >= 3 tips")
+		left := 0
+		for _, n := range c.Tree.Tips() {
+			if keep(n) {
+				left++
+			}
+		}
+		if left < 3 {
+			return nil
+		}
+	}
 	arg := append([]string(nil), c.Names...)
 	if c.PreUse > 0 && len(arg) > 0 {
 		// the same list was first used on another tree of a stream: this tree without some of the
